@@ -68,7 +68,17 @@ func corruptFrame(rc *RunCtx, valid []byte, streamEntry bool) ([]byte, string) {
 		proto, _ := rc.Sample["protocol"].(string)
 		return giantRequest(proto, n), fmt.Sprintf("well-framed request for an unknown method with a %d-byte name", n)
 	}
-	switch tp.Intn("corrupt", 11) {
+	switch tp.Intn("corrupt", 12) {
+	case 11:
+		// a well-formed frame whose _timeout header is not what a client would send
+		f, err := DecodeFrame(b)
+		if err == nil {
+			v := []string{"0", "-1", "-9223372036854775808", "9223372036854775807", "abc", "", "1e3", " 5", "00005"}[tp.Intn("corrupt", 9)]
+			f.Headers["_timeout"] = v
+			rc.Fault("hostile-timeout-header")
+			return EncodeFrame(f.Headers, f.Payload), fmt.Sprintf("well-formed frame with _timeout=%q", v)
+		}
+		fallthrough
 	case 10:
 		// a frame that is wrong from its first byte on (unknown version, absurd header size) AND shorter than
 		// announced: whoever decides to skip "the rest of the frame" must cope with a rest that never comes
